@@ -133,8 +133,8 @@ theorem step_sim (N d : Nat) (X Y X' : St) (t : Tok) (hs : Sim N d X Y) (h : ste
       cases hl : lookupLabel l xo with
       | some x =>
         simp only [hl] at h; injection h with h; subst h
-        refine ⟨⟨ya, ye ++ [Ev.rclose (ren N d p) l yq], some (ren N d p), xs.map (ren N d), none, (eraseLabel l xo).map (shiftO (ren N d))⟩,
-          [], [Ev.rclose p l yq], by simp [step, lookupLabel_map, hl, eraseLabel_map], ?_, by simp, by simp, by simp, by simp [Ev.map]⟩
+        refine ⟨⟨ya, ye ++ [Ev.rclose (ren N d p) (ren N d x) l yq], some (ren N d p), xs.map (ren N d), none, (eraseLabel l xo).map (shiftO (ren N d))⟩,
+          [], [Ev.rclose p x l yq], by simp [step, lookupLabel_map, hl, eraseLabel_map], ?_, by simp, by simp, by simp, by simp [Ev.map]⟩
         exact ⟨rfl, rfl, rfl, rfl, hN, hlen⟩
       | none =>
         simp only [hl] at h; injection h with h; subst h
